@@ -233,7 +233,7 @@ def lnFinV (c : Ctx) (ed : ED) (tmp1 resAdjust : Dec) (tape : Tape) : Option (Ou
   let f := ed.step tmp1 (fun c => addOp c tmp1 resAdjust false)
   if f.1.failed then some (failOut f.1.errOf, tape) else
   let rr := ctxRound c f.2
-  let res := rr.2 ||| cInexact
+  let res := rr.2 ||| cInexact ||| cRounded
   some ({ d := rr.1, fl := res, err := goError c.traps res }, tape)
 
 /-- `lnT` is `lnPre`, `lnBody`, `lnFinV` -/
@@ -410,7 +410,7 @@ def log10FinV (c : Ctx) (l : Out) (tape : Tape) : Option (Out × Tape) :=
   let m := mulOp { nc with prec := c.prec } l.d (invLn10At (c.prec + 2))
   if m.err != .none then some (failOut m.err, tape) else
   let rr := ctxRound c m.d
-  let res := cInexact ||| m.fl ||| rr.2
+  let res := (cInexact ||| cRounded) ||| m.fl ||| rr.2
   some ({ d := rr.1, fl := res, err := goError c.traps res }, tape)
 
 theorem log10T_eq (c : Ctx) (x : Dec) (tape : Tape) (hsp : logSpecials c x = none) :
